@@ -5,7 +5,7 @@
 From V Require Import Base.Bytes Tail.Paths Proofs.PathsProofs.
 Local Open Scope N_scope.
 
-Definition ino_of (n : node) : N := match n with File _ i => i | Dir i => i end.
+Definition ino_of (n : node) : N := match n with File _ i => i | Other _ i => i end.
 
 Lemma recs_range p sid ino from n f :
   In f (recs p sid ino from n) ->
@@ -55,7 +55,7 @@ Qed.
 
 Lemma fs_step_J s o : nr o -> J (10 + tick s) s -> J (10 + tick s + 1) (fs_step U s o).
 Proof.
-  intros Hnr [A B C D E F G I]. destruct o as [p|p|p|p q|p rd0|p| |]; unfold Paths.fs_step, set_tree; cbv beta iota zeta; try destruct Hnr.
+  intros Hnr [A B C D E F G I]. destruct o as [p|p|p|p|p q|p rd0|p| |]; unfold Paths.fs_step, set_tree; cbv beta iota zeta; try destruct Hnr.
   - (* Create *)
     destruct (in_U U p && negb (is_some (tree s p))) eqn:Gd; [|apply (J_weaken (10 + tick s)); [lia|constructor; auto]].
     constructor; stc; auto.
@@ -76,6 +76,14 @@ Proof.
     + intros q n. unfold upd. destruct (N.eqb q p); [intros X; assert (n = Dir (10 + tick s)) by congruence; subst n; cbn [ino_of]; lia|].
       intros X. specialize (F q n X). lia.
     + intros st Hs. specialize (G st Hs). lia.
+  - (* Mksock *)
+    destruct (in_U U p && negb (is_some (tree s p))) eqn:Gd; [|apply (J_weaken (10 + tick s)); [lia|constructor; auto]].
+    constructor; stc; auto.
+    + intros r rd Hr. unfold upd. destruct (N.eqb (f_path r) p); [intros X; discriminate X|]. intros X. eapply C; eauto.
+    + intros r Hr. specialize (E r Hr). lia.
+    + intros q n. unfold upd. destruct (N.eqb q p); [intros X; assert (n = Sock (10 + tick s)) by congruence; subst n; cbn [ino_of]; lia|].
+      intros X. specialize (F q n X). lia.
+    + intros st Hs. specialize (G st Hs). lia.
   - (* Delete *)
     constructor; stc; auto.
     + intros r rd Hr. unfold upd. destruct (N.eqb (f_path r) p); [intros X; discriminate X|]. intros X. eapply C; eauto.
@@ -83,7 +91,7 @@ Proof.
     + intros q n. unfold upd. destruct (N.eqb q p); [intros X; discriminate X|]. intros X. specialize (F q n X). lia.
     + intros st Hs. specialize (G st Hs). lia.
   - (* Chmod *)
-    destruct (tree s p) as [[rd1 i|i]|] eqn:T; [|apply (J_weaken (10 + tick s)); [lia|constructor; auto]|apply (J_weaken (10 + tick s)); [lia|constructor; auto]].
+    destruct (tree s p) as [[rd1 i|? i]|] eqn:T; [|apply (J_weaken (10 + tick s)); [lia|constructor; auto]|apply (J_weaken (10 + tick s)); [lia|constructor; auto]].
     constructor; stc; auto.
     + intros r rd Hr. unfold upd. destruct (N.eqb (f_path r) p) eqn:Q.
       * apply N.eqb_eq in Q. intros X. injection X as _ X. eapply (C r rd1); eauto. rewrite Q, T, X. reflexivity.
@@ -93,7 +101,7 @@ Proof.
       intros X. specialize (F q n X). lia.
     + intros st Hs. specialize (G st Hs). lia.
   - (* Append *)
-    destruct (tree s p) as [[rd1 i|i]|] eqn:T; [|apply (J_weaken (10 + tick s)); [lia|constructor; auto]|apply (J_weaken (10 + tick s)); [lia|constructor; auto]].
+    destruct (tree s p) as [[rd1 i|? i]|] eqn:T; [|apply (J_weaken (10 + tick s)); [lia|constructor; auto]|apply (J_weaken (10 + tick s)); [lia|constructor; auto]].
     constructor; stc; auto.
     + intros r Hr. specialize (B r Hr). unfold upd. destruct (N.eqb (f_ino r) i) eqn:Q; [apply N.eqb_eq in Q; rewrite <- Q; lia|exact B].
     + intros r Hr. specialize (E r Hr). lia.
@@ -110,7 +118,7 @@ Lemma tail_path_J b s p : J b s -> J b (tail_path true s p).
 Proof.
   intros [A B C D E F G I]. unfold tail_path. cbn [andb].
   destruct (is_some (reg s p)); [constructor; auto|].
-  destruct (tree s p) as [[[] i|i]|] eqn:T; try (constructor; auto; fail).
+  destruct (tree s p) as [[[] i|? i]|] eqn:T; try (constructor; auto; fail).
   constructor; stc; auto.
   - intros r rd Hr X. destruct (C r rd Hr X) as [st [H1 H2]]. exists st. split; [apply in_or_app; left; exact H1|exact H2].
   - intros r st Hr Hs. apply in_app_or in Hs as [Hs|[<-|[]]]; [apply D; auto|]. cbn. intros _ Q. rewrite <- Q. apply B. exact Hr.
@@ -137,7 +145,7 @@ Proof.
   intros Hoff. unfold round. set (got := recs _ _ _ _ _).
   assert (G : In f got -> f_path f = s_path st /\ f_ino f = s_ino st /\ s_off st <= f_idx f /\ f_idx f < len s (s_ino st)).
   { intros H. apply recs_range in H as [A [B [C D]]]. repeat split; auto. rewrite N2Nat.id in D. lia. }
-  destruct (tree s (s_path st)) as [[rd j|?]|]; cbn [snd]; try (intros H; destruct (G H) as [A B]; auto; fail).
+  destruct (tree s (s_path st)) as [[rd j|? ?]|]; cbn [snd]; try (intros H; destruct (G H) as [A B]; auto; fail).
   destruct (N.eqb j (s_ino st)) eqn:E; cbn [snd]; [intros H; destruct (G H) as [A B]; auto|].
   destruct rd; cbn [snd]; [|intros H; destruct (G H) as [A B]; auto].
   intros H. apply in_app_or in H as [H|H]; [destruct (G H) as [A B]; auto|].
@@ -152,7 +160,7 @@ Lemma kept_shape s sts st' :
      (tree s (s_path st) = Some (File true (s_ino st')) /\ s_ino st' <> s_ino st)).
 Proof.
   unfold kept. intros H. apply in_flat_map in H as [st [Hin H]]. exists st. split; [exact Hin|].
-  unfold round in H. destruct (tree s (s_path st)) as [[rd j|?]|] eqn:T; cbn in H; try contradiction.
+  unfold round in H. destruct (tree s (s_path st)) as [[rd j|? ?]|] eqn:T; cbn in H; try contradiction.
   destruct (N.eqb j (s_ino st)) eqn:E; cbn in H.
   - destruct H as [<-|[]]. cbn. apply N.eqb_eq in E. subst j. repeat split; auto. left. eauto.
   - destruct rd; cbn in H; [|contradiction]. destruct H as [<-|[]]. cbn. apply N.eqb_neq in E.
@@ -217,7 +225,7 @@ Lemma fs_step_tick s o : tick (fs_step U s o) = tick s.
 Proof.
   destruct o; unfold Paths.fs_step, set_tree; cbv beta iota zeta; repeat match goal with
   | |- context [if ?c then _ else _] => destruct c
-  | |- context [match tree s ?p with _ => _ end] => destruct (tree s p) as [[? ?|?]|]
+  | |- context [match tree s ?p with _ => _ end] => destruct (tree s p) as [[? ?|? ?]|]
   end; reflexivity.
 Qed.
 
@@ -226,7 +234,7 @@ Proof.
   unfold poll. generalize pats. intros pl. revert x. induction pl as [|pat pl IHp]; intros x; cbn [fold_left]; [reflexivity|].
   rewrite IHp. unfold glob_one. generalize U. intros u. revert x. induction u as [|q u IHu]; intros x; cbn [fold_left]; [reflexivity|].
   rewrite IHu. destruct (_ && _ && _); [|reflexivity]. unfold tail_path. cbn [andb]. destruct (is_some (reg x q)); [reflexivity|].
-  destruct (tree x q) as [[[] ?|?]|]; reflexivity.
+  destruct (tree x q) as [[[] ?|? ?]|]; reflexivity.
 Qed.
 
 Lemma step_J s o : nr o -> Inv s -> J (10 + tick s) s -> J (10 + tick (step s o)) (step s o).
